@@ -421,7 +421,7 @@ pub fn run_c11(out: &mut Out, tier: &str, seed: u64) {
 }
 
 /// the same tree with some members of its objects written a second time (same name, another value)
-fn repeat_members(g: &G, rng: &mut Rng) -> G {
+pub fn repeat_members(g: &G, rng: &mut Rng) -> G {
     match g {
         G::Obj(ms) => {
             let mut out: Vec<_> = Vec::new();
